@@ -30,6 +30,7 @@ KFOrphan == "C11_entity_orphan"        \* start failed before attaching: entity 
 KFPoller == "C11_poller_leak"          \* channel poller of an entity released within 1 s polls for ever
 KFShared == "C11_shared_stream_close"  \* stopping a collection closes the streams of other collections on the shared handler
 KFJoined == "C11_joined_stream_leak"   \* a collection that joined an existing handler is not removed from it when its task stops
+KFLate   == "C11_late_register_leak"   \* an MQ registration that completes after its collection was stopped stays
 
 VARIABLES tr, l, xt, xa, xr, xq
 tvars == <<vars, tr, l, xt, xa, xr, xq>>
@@ -37,8 +38,8 @@ tvars == <<vars, tr, l, xt, xa, xr, xq>>
 ApiOps == {"create", "pause", "resume", "delete", "get", "list"}
 StateOK(f) == \A t \in Tasks : f[t] \in TStates \cup {"err"}
 WellFormed(e) ==
-  /\ e.op \in ApiOps \cup {"restart", "settle"}
-  /\ (e.op \in {"create", "pause", "resume", "delete", "get"} => e.task \in Tasks)
+  /\ e.op \in ApiOps \cup {"restart", "settle", "release"}
+  /\ (e.op \in {"create", "pause", "resume", "delete", "get", "release"} => e.task \in Tasks)
   /\ StateOK(e.get) /\ StateOK(e.list) /\ StateOK(e.stored) /\ StateOK(e.mem)
   /\ \A a \in Targets : e.ent[a] \in Int
   /\ \A t \in Tasks : e.tgt[t] \in Targets /\ e.tgt["t1"] = "a1"
@@ -80,6 +81,7 @@ BindObs(e) ==
   /\ reg' = [t \in Tasks |-> e.reg[t]]
   /\ aux' = [t \in Tasks |-> e.rpc[t] + e.sub[t] + e.gl[t] > 0]
   /\ skok' = [t \in Tasks |-> e.seekok[t]]
+  /\ held' = [t \in Tasks |-> e.held[t]]
   /\ settled' = settled /\ own' = own
   /\ zomb' = [a \in Targets |-> Left(e, a, KFOn(KFPoller))]
   /\ busy' = IF e.cpu > 40 /\ e.win >= 300 THEN 1 ELSE 0
@@ -130,9 +132,16 @@ TStep ==
                /\ xt' = {} /\ xa' = {} /\ xr' = {} /\ xq' = {}
           [] e.op = "settle" ->
                /\ GhostSettle /\ UNCHANGED <<xt, xa, xr, xq>>
+          [] e.op = "release" ->
+               LET t == e.task
+                   late == KFOn(KFLate) /\ cst[t] \in {"Paused", "none"} /\ e.reg[t] > 0 IN
+               /\ GhostWith(cst, "release", t, TRUE, FALSE, "")
+               /\ xq' = IF late THEN xq \cup {t} ELSE xq
+               /\ UNCHANGED <<xt, xa, xr>>
+               /\ (late => PrintT("KF " \o plan \o " " \o KFLate))
      /\ ((KFOn(KFPoller) /\ \E a \in Targets : PollerDiscounted(e, a)) => PrintT("KF " \o plan \o " " \o KFPoller))
      /\ l' = l + 1 /\ tr' = tr /\ hist' = hist
-     /\ UNCHANGED <<nf, nr, np, ns, nn>>
+     /\ UNCHANGED <<nf, nr, np, ns, nn, nh>>
      /\ ContractX(xt, xa, xr, xq)'
      /\ (Diag => PrintT("AT " \o ToString(plan) \o " " \o ToString(l)))
      /\ (l = Len(Traces[tr].events) => PrintT("ACC " \o plan))
